@@ -50,7 +50,7 @@ LEVEL = {
     "technique": "static analysis: order algebra and islice / zip_longest tables by finite-domain abstract evaluation, "
                  "raise-type table, yield-origin dataflow",
 }
-LEVEL["decided"] += " (R01.12) eleven single-source tools (takewhile, dropwhile, filterfalse, filter, pairwise, batched, accumulate, starmap, enumerate, map, compress) and the two inner generators of zip as finite tables by abstract evaluation — yields, items taken, calls of the user's callable and the way the generator ends, 282 cells, compared with the stdlib tool executed on the same symbols; (R01.13) the library's scope managers around the sources never suppress an exception."
+LEVEL["decided"] += " (R01.12) fourteen tools (takewhile, dropwhile, filterfalse, filter, pairwise, batched, accumulate, starmap, enumerate, map, compress, chain, cycle, iter with sentinel) and the two inner generators of zip as finite tables by abstract evaluation — the items yielded and the way the generator ends (C05/C06 also compare items taken and calls), 373 cells, compared with the stdlib tool executed on the same symbols; (R01.13) the library's scope managers around the sources never suppress an exception."
 
 PASS_THROUGH = ["builtins.zip", "builtins._zip_inner", "builtins._zip_inner_strict", "builtins.filter",
                 "builtins.enumerate", "itertools.cycle", "itertools.batched", "itertools.chain._chain_iterator",
